@@ -50,3 +50,12 @@ func init() {
 			"for _, key := range req.SortKeys.Keys {\n\t\tsortKeys = append(sortKeys, order.NewSortKey(req.SortKeys.Order, key))\n\t}", "if len(req.SortKeys.Keys) > 0 {\n\t\tsortKeys = append(sortKeys, order.NewSortKey(req.SortKeys.Order, req.SortKeys.Keys[0]))\n\t}", "C19-K3", "PoolPostRequest.SortKeys.Keys"},
 	)
 }
+
+func init() {
+	addMutants(
+		Mutant{"C10", "c10-join-dir-not-swapped", "compiler/kernel/op.go", "Builder.compile",
+			"leftDir, rightDir = rightDir, leftDir\n", "", "C10-J1", "join.New sides"},
+		Mutant{"C10", "c10-join-rightdir-from-left-parent", "compiler/optimizer/optimizer.go", "Optimizer.propagateSortKeyOp",
+			"join.RightDir = parents[1].Primary().Order.Direction()", "join.RightDir = parents[0].Primary().Order.Direction()", "C10-J2", "dag.Join.RightDir"},
+	)
+}
